@@ -18,7 +18,7 @@ from dsim.world import SimReadHandle
 ID = 'C05'
 LEVEL = 'exploration'
 CLASSES = [('build', 1)]
-TIERS = {'quick': {'runs': 4000, 'chunk': 50}}
+TIERS = {'quick': {'chunk': 50}}
 RULE = ('seeded trees built through the public API (0-4 changes x 0-4 '
         'files; each of the 28 typed attributes independently set or left '
         'default; encodings from 21 codecs; empty contents included); '
